@@ -245,6 +245,21 @@ func (in *Interp) convert(v Value, from, to types.Type) Value {
 				}
 				return term.ZExt(t, ts.W)
 			case fs.K == term.KBV && ts.K == term.KFP:
+				// a value the range facts place in [0, 2^k) with k well below the
+				// source width is converted from its low k+1 bits (unsigned): the same
+				// float, a much smaller circuit for the solver
+				if fs.W > 32 && !t.IsConst() {
+					ia := in.Eng.abs.iv(t)
+					if ia.lo >= 0 && ia.hi >= 0 && ia.hi < 1<<40 {
+						k := 1
+						for int64(1)<<uint(k) <= ia.hi {
+							k++
+						}
+						if k+1 < fs.W {
+							return term.UBVToF(term.Extract(t, k, 0), ts.W)
+						}
+					}
+				}
 				if isSigned(from) {
 					return term.SBVToF(t, ts.W)
 				}
@@ -258,6 +273,10 @@ func (in *Interp) convert(v Value, from, to types.Type) Value {
 						if ia.lo >= -(1<<53) && ia.hi <= 1<<53 {
 							return t.Args[0]
 						}
+					}
+					// the same for a source narrowed by the conversion above
+					if t.Op == term.OUBVToF && fs.W == 64 && len(t.Args) == 1 && t.Args[0].Sort.K == term.KBV && t.Args[0].Sort.W < 53 && t.Args[0].Sort.W < ts.W {
+						return term.ZExt(t.Args[0], ts.W)
 					}
 					return term.FToSBV(t, ts.W)
 				}
